@@ -539,17 +539,39 @@ func ruleNameDiscover(c *Ctx) []*Obligation {
 			return v
 		}
 		type tokSpec struct {
-			typ  int64
-			name string // "" = empty name
+			typ   int64
+			name  string // "" = empty name
+			opens bool   // a section opener whose body follows, up to the next SectionEnd
 		}
 		// the discovery loop evaluated abstractly over short token lists: which names end up recorded
 		run := func(toks []tokSpec) ([]string, string) {
 			ai := &absInterp{c: c, fn: fn, env: map[ssa.Value]aiVal{}, fields: map[string]aiVal{}}
 			lst := aiVal{kind: "list"}
+			top := aiVal{kind: "list"} // the parsed tree: tokens nested in a section are its children
+			inSection := -1
+			children := map[int]aiVal{}
+			tse, _ := c.constByName("mustache/parsers", "TokenSectionEnd")
+			tsec0, _ := c.constByName("mustache/parsers", "TokenSection")
 			for i := range toks {
-				lst.tup = append(lst.tup, aiSym(fmt.Sprintf("token%d", i)))
+				sym := aiSym(fmt.Sprintf("token%d", i))
+				lst.tup = append(lst.tup, sym)
+				switch {
+				case toks[i].typ == tse:
+					inSection = -1
+				case inSection >= 0:
+					ch := children[inSection]
+					ch.kind = "list"
+					ch.tup = append(ch.tup, sym)
+					children[inSection] = ch
+				default:
+					top.tup = append(top.tup, sym)
+					if toks[i].typ == tsec0 && toks[i].opens {
+						inSection = i
+					}
+				}
 			}
 			ai.fields["initialTokens"] = lst
+			ai.fields["resultTokens"] = top
 			ai.fields["originalTokens"] = lst
 			ai.fields["variableNames"] = aiVal{kind: "list"}
 			spec := func(v aiVal) *tokSpec {
@@ -582,6 +604,16 @@ func ruleNameDiscover(c *Ctx) []*Obligation {
 					if ts := spec(ai.get(cc.Args[0])); ts != nil {
 						return aiInt(ts.typ), true
 					}
+				case recvNamed(f) == "MustacheToken" && f.Name() == "Tokens":
+					var i int
+					if v := ai.get(cc.Args[0]); v.kind == "sym" {
+						if _, err := fmt.Sscanf(v.s, "token%d", &i); err == nil {
+							if ch, ok := children[i]; ok {
+								return ch, true
+							}
+							return aiNil(), true
+						}
+					}
 				case recvNamed(f) == "MustacheToken" && f.Name() == "Value":
 					if ts := spec(ai.get(cc.Args[0])); ts != nil {
 						if ts.name == "" {
@@ -611,18 +643,19 @@ func ruleNameDiscover(c *Ctx) []*Obligation {
 			}
 			return names, ""
 		}
-		tv, tc, tvar, tsec := kk("TokenValue"), kk("TokenComment"), kk("TokenVariable"), kk("TokenSection")
+		tv, tc, tvar, tsec, tend := kk("TokenValue"), kk("TokenComment"), kk("TokenVariable"), kk("TokenSection"), kk("TokenSectionEnd")
 		cases := []struct {
 			toks []tokSpec
 			want string
 			what string
 		}{
-			{[]tokSpec{{tv, "a"}}, "", "a text token contributes a name"},
-			{[]tokSpec{{tc, "a"}}, "", "a comment token contributes a name"},
-			{[]tokSpec{{tvar, ""}}, "", "an empty name is recorded"},
-			{[]tokSpec{{tvar, "a"}}, "a", "a variable token's own name is not recorded"},
-			{[]tokSpec{{tvar, "a"}, {tsec, "a"}}, "a", "a name occurring twice is not recorded exactly once"},
-			{[]tokSpec{{tvar, "a"}, {tvar, "b"}}, "a,b", "two different names are not both recorded in order of first occurrence"},
+			{[]tokSpec{{tv, "a", false}}, "", "a text token contributes a name"},
+			{[]tokSpec{{tc, "a", false}}, "", "a comment token contributes a name"},
+			{[]tokSpec{{tvar, "", false}}, "", "an empty name is recorded"},
+			{[]tokSpec{{tvar, "a", false}}, "a", "a variable token's own name is not recorded"},
+			{[]tokSpec{{tvar, "a", false}, {tsec, "a", false}}, "a", "a name occurring twice is not recorded exactly once"},
+			{[]tokSpec{{tvar, "a", false}, {tvar, "b", false}}, "a,b", "two different names are not both recorded in order of first occurrence"},
+			{[]tokSpec{{tsec, "a", true}, {tvar, "b", false}, {tend, "a", false}}, "a,b", "a variable that occurs only inside a section body is not reported"},
 		}
 		bad, undec := "", ""
 		for _, cs := range cases {
@@ -641,7 +674,7 @@ func ruleNameDiscover(c *Ctx) []*Obligation {
 		case undec != "":
 			o.undecided(key, c.Pos(fn.Pos()), undec)
 		default:
-			o.ok(key, c.Pos(fn.Pos()), "6 abstract runs: names are taken only from tokens that are neither text nor comment and have a non-empty name, once each, in order")
+			o.ok(key, c.Pos(fn.Pos()), "7 abstract runs: names are taken only from tokens that are neither text nor comment and have a non-empty name, once each, in order")
 		}
 	}
 	return o.list
